@@ -9,6 +9,7 @@ verus! {
 //@include ../frag/unstable.tpl
 //@include ../frag/state.tpl
 //@include ../frag/endpoints.tpl
+//@include ../frag/heartbeat.tpl
 
 proof fn vp_canary_axioms()
     ensures false,
